@@ -7,4 +7,5 @@ var verifHarnesses = map[string]func(){
 	"VerifH_C07_independent":  VerifH_C07_independent,
 	"VerifH_C06_wakeup": VerifH_C06_wakeup,
 	"VerifH_C06_fifo3":  VerifH_C06_fifo3,
+	"VerifH_C05_L4_startHistory": VerifH_C05_L4_startHistory,
 }
